@@ -232,12 +232,30 @@ BOXSETS = {"unit": [[0.0, 1.0], [0.0, 1.0]], "negtiny": [[-3.0, -1.0], [0.0, 1e-
 
 
 def run_body_factory(name, N, G, nparams, boxset, seed, on_bounds=False):
-    bounds = BOXSETS[boxset][:nparams]
+    bounds0 = BOXSETS[boxset][:nparams]
 
     def body(ctx):
         from .c_support import run_algorithm
         prepare = before = None
-        if on_bounds:
+        bounds = [list(b) for b in bounds0]
+        if on_bounds == "narrowed":
+            # the user narrows the declared box in place after the algorithm object exists: every evaluated design lies in
+            # the box as declared when run() starts
+            narrowed = [[lb + (ub - lb) * 0.25, ub - (ub - lb) * 0.375] for lb, ub in bounds]
+
+            def prepare(problem, alg):
+                for p, nb in zip(problem.parameters, narrowed):
+                    p['bounds'][0], p['bounds'][1] = nb
+            bounds = narrowed
+        elif on_bounds == "scripted":
+            # a fixed script of transient failures (calls 1, 2 and 5): replacements are drawn with extreme draws on offer
+            calls = {"n": -1}
+
+            def before(problem, individual):
+                calls["n"] += 1
+                if calls["n"] in (1, 2, 5):
+                    raise (TimeoutError if calls["n"] != 2 else RuntimeError)("scripted")
+        elif on_bounds:
             # the initial designs sit on the bounds (as clipped children do) and any objective call may fail transiently:
             # the re-sampled replacement must be inside the box as well
             def prepare(problem, alg):
@@ -249,9 +267,9 @@ def run_body_factory(name, N, G, nparams, boxset, seed, on_bounds=False):
             def before(problem, individual):
                 if ctx.choose("fault", 2, 1, "objective") == 1:
                     raise TimeoutError("injected")
-        problem, alg, exc = run_algorithm(name, ctx, seed, N, G, n_params=nparams, n_costs=2, bounds=bounds, prepare=prepare, before=before,
+        problem, alg, exc = run_algorithm(name, ctx, seed, N, G, n_params=nparams, n_costs=2, bounds=[list(b) for b in bounds0], prepare=prepare, before=before,
                                           shim_cfg={"extreme_values": True, "price_value": 1, "price_decision": 1, "price_pick": 1})
-        desc = "%s N=%d G=%d nparams=%d boxes=%r%s" % (name, N, G, nparams, bounds, " initial designs on the bounds, failures possible" if on_bounds else "")
+        desc = "%s N=%d G=%d nparams=%d boxes=%r%s" % (name, N, G, nparams, bounds, (" (%s)" % on_bounds if isinstance(on_bounds, str) else " initial designs on the bounds, failures possible") if on_bounds else "")
         out = []
         if exc is not None:
             out.append(("C08:run:%s:exception:%s" % (name, type(exc).__name__), "%s raised %r" % (desc, exc)))
@@ -385,6 +403,11 @@ def run(tier, seed):
     for (N, G) in ((2, 1), (3, 2)):
         for nparams, boxset in ((1, "unit"), (2, "negtiny"), (2, "hugefar")):
             shards.append(("run", "NSGAII", N, G, nparams, boxset, seed, 1, 0, 1, True))
+    for name in ("NSGAII", "EpsMOEA", "OMOPSO", "SMPSO", "PSOGA"):
+        for mode in ("narrowed", "scripted"):
+            for (N, G) in ((2, 2), (3, 2)):
+                for nparams, boxset in ((1, "unit"), (2, "negtiny")):
+                    shards.append(("run", name, N, G, nparams, boxset, seed, 1, 0, 1, mode))
     for name in ("NSGAII", "EpsMOEA", "OMOPSO", "SMPSO", "PSOGA"):      # long and larger runs, default execution
         for (N, G) in ((4, 12), (10, 5)):
             for nparams, boxset in ((2, "negtiny"), (2, "hugefar")):
